@@ -92,7 +92,9 @@ def cli_archives(c, rnd, n, seen):
                 i = len(cases)
                 enc_n, mode_n = (1 if enc == "aes" else 2), (0 if mode == "cbc" else 1)
                 tape = "".join(s + iv for _, iv, s in ctxs)
-                cases.append("multi\t%s\t%d\t%d\t%s\t%s\t%d\t%s\tcli:%s" % ("solid" if solid else "entry", enc_n, mode_n, kdf[1], pw.encode().hex(), n_ctx, tape, kind))
+                # a keep-solid rewrite builds new WriteOptions without a hash algorithm: the library default (argon2id, default costs)
+                spec = "argon2.-.-.-" if kind == "keepsolid" else kdf[1]
+                cases.append("multi\t%s\t%d\t%d\t%s\t%s\t%d\t%s\tcli:%s" % ("solid" if solid else "entry", enc_n, mode_n, spec, pw.encode().hex(), n_ctx, tape, kind))
                 impl.append("OK " + ",".join("%s:%s" % (p, iv) for p, iv, _ in ctxs))
                 msgs = ["C08: %s (CLI %s): %s" % (p, kind, "; ".join(hist)) for p in res["problems"]]
                 # fresh across the whole run, including the archive before a rewrite
